@@ -22,8 +22,35 @@ Ascending(S) == LET RECURSIVE A(_)
                 IN  A(S)
 
 Held(c)        == { a \in DOMAIN c.held : c.held[a] # 0 }
-FullAssets(c)  == Held(c) \cup c.uni \cup DOMAIN c.alpha
-FullWeights(c) == [a \in FullAssets(c) |-> IF a \in DOMAIN c.alpha THEN c.alpha[a] ELSE 0]
+
+(***************************************************************************)
+(* The weight pipeline of __call__: alpha model (or zeros over the         *)
+(* universe) -> optional risk model -> optimiser -> full vector.           *)
+(* Optional case fields (absent = the plain fixed-weight pipeline):        *)
+(*   risk  "none" | "zero" | "drop" and rset: a risk model that sets the   *)
+(*         weights of the assets in rset to zero, or removes those keys    *)
+(*   opt   "fixed" | "equal" and scale (a rational > 0 or 0): the          *)
+(*         optimiser; equal = scale / (number of keys) for every key       *)
+(***************************************************************************)
+RiskKind(c) == IF "risk" \in DOMAIN c THEN c.risk ELSE "none"
+OptKind(c)  == IF "opt" \in DOMAIN c THEN c.opt ELSE "fixed"
+AfterRisk(c) ==
+  CASE RiskKind(c) = "zero" -> [a \in DOMAIN c.alpha |-> IF a \in c.rset THEN 0 ELSE c.alpha[a]]
+    [] RiskKind(c) = "drop" -> [a \in DOMAIN c.alpha \ c.rset |-> c.alpha[a]]
+    [] OTHER                -> c.alpha
+\* integer weights handed to the sizer: only their proportions matter there (both sizers normalise)
+Optimised(c) ==
+  IF OptKind(c) = "equal" THEN [a \in DOMAIN AfterRisk(c) |-> IF c.scale[1] = 0 THEN 0 ELSE 1]
+  ELSE AfterRisk(c)
+\* the weights as RECORDED in the target allocation (exact rationals)
+Recorded(c) ==
+  IF OptKind(c) = "equal"
+  THEN [a \in DOMAIN AfterRisk(c) |-> RNorm(<< c.scale[1], c.scale[2] * Cardinality(DOMAIN AfterRisk(c)) >>)]
+  ELSE [a \in DOMAIN AfterRisk(c) |-> << AfterRisk(c)[a], 1 >>]
+
+FullAssets(c)  == Held(c) \cup c.uni \cup DOMAIN Optimised(c)
+FullWeights(c) == [a \in FullAssets(c) |-> IF a \in DOMAIN Optimised(c) THEN Optimised(c)[a] ELSE 0]
+FullRecorded(c) == [a \in FullAssets(c) |-> IF a \in DOMAIN Recorded(c) THEN Recorded(c)[a] ELSE << 0, 1 >>]
 HeldQty(c, a)  == IF a \in DOMAIN c.held THEN c.held[a] ELSE 0
 
 \* the sizer is called with the full weight vector; it iterates the assets in ascending order
@@ -40,8 +67,8 @@ SizerCase(c) ==
 Call(c) ==
   LET as == Ascending(FullAssets(c))
       r  == Size(SizerCase(c))
-  IN  IF "err" \in DOMAIN r THEN [err |-> r.err, alloc |-> FullWeights(c)]     \* the allocation is recorded before sizing
-      ELSE [alloc |-> FullWeights(c), assets |-> as,
+  IN  IF "err" \in DOMAIN r THEN [err |-> r.err, alloc |-> FullWeights(c), recorded |-> FullRecorded(c)]     \* the allocation is recorded before sizing
+      ELSE [alloc |-> FullWeights(c), recorded |-> FullRecorded(c), assets |-> as,
             target |-> [a \in FullAssets(c) |-> r.q[CHOOSE i \in 1..Len(as) : as[i] = a]]]
 
 \* the orders for one concrete choice of target quantities tq : [asset -> Int]
@@ -58,8 +85,12 @@ C09_Post(c, tq, os) ==
                 THEN os[CHOOSE i \in 1..Len(os) : os[i][1] = a][2] ELSE 0
        IN  q = tq[a] - HeldQty(c, a)
   /\ \A i \in 1..Len(os) : os[i][1] \in FullAssets(c)
-  /\ \A a \in Held(c) : (a \notin DOMAIN c.alpha \/ c.alpha[a] = 0) => tq[a] = 0   \* weightless holdings are liquidated
-  /\ DOMAIN FullWeights(c) = Held(c) \cup c.uni \cup DOMAIN c.alpha                \* allocation covers exactly that set
+  /\ \A a \in Held(c) : (a \notin DOMAIN Optimised(c) \/ Optimised(c)[a] = 0) => tq[a] = 0   \* weightless holdings are liquidated
+  /\ DOMAIN FullWeights(c) = Held(c) \cup c.uni \cup DOMAIN Optimised(c)            \* allocation covers exactly that set
+  /\ OptKind(c) = "equal" /\ DOMAIN AfterRisk(c) # {} =>                             \* C19: equal weights summing to the scale
+        /\ \A a, b \in DOMAIN Recorded(c) : Recorded(c)[a] = Recorded(c)[b]
+        /\ LET u == Recorded(c)[CHOOSE a \in DOMAIN Recorded(c) : TRUE]
+           IN  RNorm(<< u[1] * Cardinality(DOMAIN Recorded(c)), u[2] >>) = RNorm(c.scale)
 
 PcmSound(c) ==
   LET r == Call(c) IN
